@@ -121,6 +121,14 @@ func c02cases(tier string) []c02case {
 			cs = append(cs, c02case{shape: sh, n: n, scen: "prewait", hist: c02hists[2]})
 		}
 	}
+	// only SOME of the start events are fired (StartWith for all but the last one): whatever the tokens of those do,
+	// completion must not be reported before the last start event has fired too
+	for _, sh := range []string{"ste", "subfirst", "se"} {
+		for n := 2; n <= 3; n++ {
+			cs = append(cs, c02case{shape: sh, n: n, scen: "partial", hist: c02hists[0]})
+			cs = append(cs, c02case{shape: sh, n: n, scen: "partial", hist: c02hists[2]})
+		}
+	}
 	for _, sh := range shapes1 {
 		cs = append(cs, c02case{shape: sh, n: 1, scen: "missed", hist: c02hists[0]})
 		cs = append(cs, c02case{shape: sh, n: 1, scen: "missed", hist: c02hists[2]})
@@ -221,6 +229,22 @@ func c02graph(shape string, n int) *eng.Graph {
 			e := g.Add("endEvent", fmt.Sprintf("e%d", i), "")
 			g.Connect(starts[i], u, nil)
 			g.Connect(u, e, nil)
+		}
+	case "subfirst":
+		// the first start event leads into an embedded sub-process (whose content has a start event of its own), the
+		// others to a task each: s0 -> sub( us -> ue ) -> e0 ; s_i -> T_i -> e_i
+		u := g.SubBegin("")
+		us := g.Add("startEvent", "us", u.ID)
+		ue := g.Add("endEvent", "ue", u.ID)
+		g.Connect(us, ue, nil)
+		e0 := g.Add("endEvent", "e0", "")
+		g.Connect(starts[0], u, nil)
+		g.Connect(u, e0, nil)
+		for i := 1; i < n; i++ {
+			t := g.Add("task", fmt.Sprintf("T%d", i), "")
+			e := g.Add("endEvent", fmt.Sprintf("e%d", i), "")
+			g.Connect(starts[i], t, nil)
+			g.Connect(t, e, nil)
 		}
 	case "pjoin", "xmerge":
 		kind := "parallelGateway"
@@ -386,6 +410,31 @@ func c02run(out *rec.Out, c c02case, rng *rec.Rng, tier string, stats map[string
 		in.Quiesce(q)
 		in.Op("startall")
 		startAll()
+	case "partial":
+		startWith := func(i int) {
+			id := fmt.Sprintf("s%d", i)
+			in.Op("startwith %s", id)
+			for k := range *in.Proc.Element().StartEvents() {
+				se := &(*in.Proc.Element().StartEvents())[k]
+				if sid, ok := se.Id(); ok && *sid == id {
+					if err := in.Proc.StartWith(in.Ctx, se); err != nil {
+						in.Note("obs startwith %s error", id)
+					}
+				}
+			}
+		}
+		for i := 0; i+1 < c.n; i++ {
+			startWith(i)
+			in.Quiesce(q)
+		}
+		// the tokens of the fired start events run to their ends
+		c02answerAll(in, rng, q)
+		in.Quiesce(q)
+		r.group(c02wait{"pre", false, 1, "tiny"}, c02tiny).Wait()
+		in.Quiesce(q)
+		startWith(c.n - 1)
+		startRes = "returned"
+		in.Note("obs startall returned")
 	case "missed":
 		// hold StartWith right after Trigger until the start event's traces have been broadcast (quiescence)
 		arr := hold("after_trigger")
